@@ -31,7 +31,11 @@ def handle (req : Json) : Except String Json := do
   | "connect.expand" => do
     let syms ← (← getArr req "flowSyms").toList.mapM (·.getStr?)
     let edges ← (← getArr req "edges").toList.mapM parseEdge
-    let inp : Input := { flowSyms := syms, edges := edges }
+    let pol ← match (req.getObjValAs? String "policy").toOption.getD "name" with
+      | "name" => pure PopPolicy.byName
+      | "face" => pure PopPolicy.byFace
+      | p => throw s!"bad-policy {p}"
+    let inp : Input := { flowSyms := syms, edges := edges, policy := pol }
     match expand inp, finalSets inp with
     | .ok eqs, .ok sets =>
       pure (Json.mkObj [("ok", true), ("raised", Json.null),
